@@ -199,6 +199,30 @@ def reader_info(repo):
     if len(dk) < 1:
         raise ExtractFail("EXTRACT-FAIL reader.c: wasmReadDataSegment kind table")
     out["datakinds"] = dk
+    # constant expressions: which opcodes wasmReadConstantExpr accepts, with their byte values
+    body = re.sub(r"\s+", " ", _func_body(rd, "wasmReadConstantExpr", "reader.c"))
+    mm = _need(re.search(r"switch \(opcode\) \{ ((?:case \w+: )+)\{ WasmConstInstruction instruction; MUST \(wasmConstInstructionRead\(buffer, opcode, &instruction\)\) break; \} "
+                         r"case (\w+): \{ WasmGlobalInstruction instruction; MUST \(wasmGlobalInstructionRead\(buffer, &instruction\)\) break; \} "
+                         r"case (\w+): return true; default: return false; \} MUST \(wasmOpcodeRead\(buffer, &opcode\)\) MUST \(opcode == (\w+)\) return true;", body),
+               "wasmReadConstantExpr shape")
+    consts = re.findall(r"case (\w+):", mm.group(1))
+    if mm.group(3) != mm.group(4):
+        raise ExtractFail("EXTRACT-FAIL reader.c: wasmReadConstantExpr end opcode")
+    oph = _strip_comments(_read(repo, "opcode.h"))
+    def opval(n):
+        return _cint(_need(re.search(r"\b" + n + r"\s*=\s*(0x[0-9A-Fa-f]+)", oph), "opcode " + n).group(1))
+    ins = re.sub(r"\s+", " ", _func_body(_strip_comments(_read(repo, "instruction.c")), "wasmConstInstructionRead", "instruction.c"))
+    kinds = {}
+    for c, fn in re.findall(r"case (\w+): return (\w+)\(buffer, &result->value\.\w+\) > 0;", ins):
+        kinds[c] = fn
+    ce = []
+    for c in consts:
+        if c not in kinds:
+            raise ExtractFail(f"EXTRACT-FAIL instruction.c: wasmConstInstructionRead has no case {c}")
+        ce.append((c, opval(c), kinds[c]))
+    out["constexpr"] = ce
+    out["globalget"] = (mm.group(2), opval(mm.group(2)))
+    out["endop"] = (mm.group(3), opval(mm.group(3)))
     return out
 
 
@@ -282,6 +306,10 @@ def generate(repo):
     A("/-- `wasmReadDataSegment`: (kind, readMemoryIndex, readOffsetExpression, passive) -/")
     A("def dataKinds : List (Nat × Bool × Bool × Bool) := [" + ", ".join(
         f"({k}, {str(a).lower()}, {str(b).lower()}, {str(c).lower()})" for k, a, b, c in rd["datakinds"]) + "]")
+    A("/-- `wasmReadConstantExpr`: accepted constant opcodes (name, byte, immediate reader of wasmConstInstructionRead), global.get, end -/")
+    A("def constExprConsts : List (String × Nat × String) := [" + ", ".join(f"({_lean_str(n)}, {v}, {_lean_str(f)})" for n, v, f in rd["constexpr"]) + "]")
+    A(f"def opcodeGlobalGet : Nat := {rd['globalget'][1]}")
+    A(f"def opcodeEnd : Nat := {rd['endop'][1]}")
     A("/-- `enum WasmImportKind` / `enum WasmExportKind` (the `_count` member is the bound of the kind check) -/")
     A("def importKinds : List (String × Nat) := [" + ", ".join(f"({_lean_str(n)}, {v})" for n, v in rd["importkinds"]) + "]")
     A("def exportKinds : List (String × Nat) := [" + ", ".join(f"({_lean_str(n)}, {v})" for n, v in rd["exportkinds"]) + "]")
